@@ -721,6 +721,16 @@ SRV_PROJ = {
     "C13": r"^(bytes:|yield:|ready:stall)",
 }
 
+def count_in_file(path, needle):
+    n = 0
+    try:
+        with open(path) as f:
+            for line in f:
+                n += line.count(needle)
+    except OSError:
+        pass
+    return n
+
 def by_history(mismatches, proj):
     """history id -> the mismatch to judge: a history may carry two (its first divergence and the ownership
     judgement at its end); the one inside the property's projection wins, else the first."""
@@ -1028,7 +1038,9 @@ def srv_property(pid, tier, seed, models, drivers, assumptions, design_ref, proo
         "exhaustive": False,
         "models": [{"name": r["name"], "cfg": r["cfg"], "distinct_states": r["distinct"], "states_generated": r["states_generated"],
                     "depth": r["depth"], "witnesses_reached": r["witnesses"], "reused_from_cache": r.get("cached", False), "wall_s": r.get("wall_s")} for r in mres],
-        "conformance": [{"build": c["kind"], "domain": c["domain"], "trace_events_validated": c["events"], "divergent_histories": len(c["mismatches"])} for c in cres],
+        "conformance": [{"build": c["kind"], "domain": c["domain"], "trace_events_validated": c["events"], "divergent_histories": len(c["mismatches"]),
+                         # client actions performed INSIDE requests() calls (hook at_event) in the validated histories
+                         "client_actions_inside_polls": count_in_file(c["trace"], '"h":"mid"')} for c in cres],
         "out_of_projection": oop,
         "known_findings_hit": len(known_hits),
         "binding_selftest": selftest,
